@@ -873,3 +873,65 @@ B("C03", "upper-triangle-pairs", DIS,
 B("C03", "c2n-true-division", DIS,
   "        c2n = nb_annotators * (nb_annotators - 1) // 2\n        for unitary_alignment_i",
   "        c2n = (nb_annotators - 1) * nb_annotators / 2\n        for unitary_alignment_i")
+
+# =============================================================================================
+# C20
+# =============================================================================================
+REGRESSIONS.append(dict(prop="C20", id="regression/F9-numerical-tested-as-ordinal", patch="6d18317.diff", rule="R-C20-2"))
+REGRESSIONS.append(dict(prop="C20", id="regression/F10-float32-to-writers", patch="81c0d94.diff", rule="R-C20-4"))
+M("C20", "empty-delta-not-forwarded", CLI,
+  "                                                  delta_empty=args.empty_delta,\n", "", "R-C20-3")
+M("C20", "n-samples-ignored", CLI,
+  "                                        sampler=sampler,\n                                        n_samples=args.n_samples)",
+  "                                        sampler=sampler)", "R-C20-3")
+M("C20", "seed-set-after-computation", CLI,
+  """    if args.seed is not None:
+        np.random.seed(args.seed)
+
+    for file_path in input_files:""",
+  """    for file_path in input_files:""", "R-C20-3")
+M("C20", "seed-reset-per-file", CLI,
+  """    if args.seed is not None:
+        np.random.seed(args.seed)
+
+    for file_path in input_files:
+        start = time.time()""",
+  """    for file_path in input_files:
+        if args.seed is not None:
+            np.random.seed(args.seed)
+        start = time.time()""", "R-C20-3", "API semantic differs for several files: each file restarts the stream")
+M("C20", "alpha-beta-crossed", CLI,
+  "        dissim = CombinedCategoricalDissimilarity(alpha=args.alpha,\n                                                  beta=args.beta,",
+  "        dissim = CombinedCategoricalDissimilarity(alpha=args.beta,\n                                                  beta=args.alpha,", "R-C20-3")
+M("C20", "csv-mode-reports-other-accessor", CLI,
+  "            result_list.append(float(gamma.gamma))", "            result_list.append(float(gamma.observed_disorder))", "R-C20-5")
+M("C20", "separator-not-used-by-writer", CLI,
+  "            writer = csv.writer(output_csv, delimiter=args.separator)", "            writer = csv.writer(output_csv)", "R-C20-3")
+M("C20", "levenshtein-builds-numerical", CLI,
+  "            cat_dissim = LevenshteinCategoricalDissimilarity(continuum.categories)",
+  "            cat_dissim = NumericalCategoricalDissimilarity(continuum.categories)", "R-C20-2")
+M("C20", "new-option-never-read", CLI,
+  """argparser.add_argument("-v", "--verbose",""",
+  """argparser.add_argument("--soft", action="store_true", help="soft gamma")
+argparser.add_argument("-v", "--verbose",""", "R-C20-1")
+M("C20", "gamma-k-csv-not-floated", CLI,
+  "result_list.append({category: float(gamma.gamma_k(category)) for category in continuum.categories})",
+  "result_list.append({category: gamma.gamma_k(category) for category in continuum.categories})", "R-C20-4")
+M("C20", "mathet-flag-inverted", CLI,
+  "        if args.mathet_sampler:\n            sampler = ShuffleContinuumSampler()",
+  "        if not args.mathet_sampler:\n            sampler = ShuffleContinuumSampler()", "R-C20-3")
+B("C20", "options-reordered-help-changed", CLI,
+  """argparser.add_argument("-a", "--alpha",
+                       default=1, type=float,
+                       help="Alpha coefficient (positional dissimilarity ponderation)")
+argparser.add_argument("-b", "--beta",
+                       default=1, type=float,
+                       help="Beta coefficient (categorical dissimilarity ponderation)")""",
+  """argparser.add_argument("-b", "--beta",
+                       default=1, type=float,
+                       help="weight of the categorical dissimilarity")
+argparser.add_argument("-a", "--alpha",
+                       default=1, type=float,
+                       help="weight of the positional dissimilarity")""")
+B("C20", "value-through-local", CLI,
+  "            result_list.append(float(gamma.gamma))", "            gamma_value = float(gamma.gamma)\n            result_list.append(gamma_value)")
